@@ -45,6 +45,7 @@ class NumpySerializedList(collections.UserList):
         return len(self._addr)
 
     def __getitem__(self, idx):
+        idx = int(idx)  # narrow numpy integers overflow in `idx + len(self)`
         if idx < 0:
             idx += len(self)
             if idx < 0:
@@ -2820,6 +2821,9 @@ class ConcatenateDataset(Dataset):
 
         """
         if isinstance(item, numbers.Integral):
+            # A narrow numpy integer (e.g. np.int8) would overflow in the
+            # arithmetic below.
+            item = int(item)
             _item = item
             if item < 0:
                 item = item + len(self)
@@ -3288,6 +3292,9 @@ class BatchDataset(Dataset):
 
     def __getitem__(self, item):
         if isinstance(item, numbers.Integral):
+            # A narrow numpy integer (e.g. np.uint8) would silently wrap
+            # around in `item * self.batch_size`.
+            item = int(item)
             if item < 0:
                 # only touch len when necessary
                 item = item + len(self)
